@@ -1,5 +1,5 @@
 (* Props/C08.v — cw1-subkeys: a subkey never spends beyond its unexpired native allowance. *)
-Require Import CwPlus.Params CwPlus.Base CwPlus.AMap CwPlus.Cw1Model CwPlus.Cw1Lemmas.
+Require Import CwPlus.Params CwPlus.Base CwPlus.AMap CwPlus.Cw1Model CwPlus.Cw1Lemmas CwPlus.Cw1Check CwPlus.Cw1CheckLemmas.
 Open Scope N_scope.
 
 (* an accepted Execute of a non-admin: the allowance is stored and unexpired for every bank send,
@@ -48,6 +48,14 @@ Theorem c08_cumulative : forall m st cs s d, instantiate m = Ok st ->
   let '(granted, spent, final) := ghost st cs s d in spent + amount_of (stored final s) d <= granted.
 Proof. exact spent_le_granted. Qed.
 
+(* the step contract S_C08 (all 13 clauses, the expiry clauses included) never fires on the model's own
+   transition from a state satisfying the invariant, nor on a refused call that leaves the state as it is *)
+Theorem c08_contract_never_fires_on_model : forall st blk sender o, Cw1Lemmas.Inv st ->
+  match step st blk sender o with
+  | Ok (st', _) => s_c08 st st' blk sender o true = 0
+  | _ => True
+  end /\ s_c08 st st blk sender o false = 0.
+Proof. exact s_c08_sound. Qed.
 Example c08_nonvacuous :
   exists st, instantiate (mkInit true [Some 1] true) = Ok st /\
     let cs := [(mkBlock 1 1, 1, IncreaseAllowance (Some 2) (0, 10) (Some (AtHeight 5)), true);
@@ -62,3 +70,4 @@ Print Assumptions c08_increase.
 Print Assumptions c08_decrease.
 Print Assumptions c08_step.
 Print Assumptions c08_cumulative.
+Print Assumptions c08_contract_never_fires_on_model.
